@@ -60,6 +60,8 @@ class Downloader(ABC):
         self._unmodified: list[DownloadFileCompressionVariant] = []
         # Either missing on server files or files with errors
         self._missing_sources: set[Path] = set()
+        # Serializes tasks which work on the same target path
+        self._path_locks: dict[Path, asyncio.Lock] = {}
         self._download_start = datetime.now()
 
         self.reset_stats()
@@ -150,7 +152,21 @@ class Downloader(ABC):
             # be silently lost and the file would be neither downloaded nor
             # counted as failed
             try:
-                await self.download_file(source_file)
+                # Byte-identical files of one folder share their by-hash paths:
+                # never let two tasks unlink, write and link the same path at once
+                async with contextlib.AsyncExitStack() as stack:
+                    for path in sorted(
+                        {
+                            p
+                            for v in source_file.compression_variants.values()
+                            for p in v.get_all_paths()
+                        }
+                    ):
+                        await stack.enter_async_context(
+                            self._path_locks.setdefault(path, asyncio.Lock())
+                        )
+
+                    await self.download_file(source_file)
             except Exception as ex:  # pylint: disable=W0718
                 if source_file.ignore_errors:
                     self._log.info(
